@@ -176,6 +176,22 @@ func runC03(c *Ctx) {
 		nonNil := f.NilCheckEdges(func(e ast.Expr) bool { _, ok := e.(*ast.Ident); return ok }, true)
 		_ = nonNil
 		c.Check(len(f.Find(rec)) == 1 && len(f.Find(deq)) == 1, "unstashAll/one-reenqueue-per-dequeue", "each dequeued message is handed to doReceive at one site, in dequeue order", c.P.Pos(ua.Decl.Pos()), "")
+		// the whole drain is one critical section of the stash lock: two concurrent drains (UnstashAll from the handler and
+		// the release of the last blocking request) cannot interleave their re-enqueues
+		locker := c.Field("actor", "stashState", "locker")
+		la := f.Locks(nil)
+		held := len(f.Find(rec)) > 0
+		for _, a := range f.Find(rec) {
+			if la.At(a)[locker] != 2 {
+				held = false
+			}
+		}
+		for _, a := range f.Find(deq) {
+			if la.At(a)[locker] != 2 {
+				held = false
+			}
+		}
+		c.Check(held, "unstashAll/drain-is-atomic", "every dequeue from the stash and the re-enqueue that follows it happen with the stash lock held: a drain is atomic with respect to a concurrent drain (stashed messages re-enter the mailbox in stash order)", c.P.Pos(ua.Decl.Pos()), "a dequeue or the doReceive of a dequeued message runs without the stash lock")
 		us := c.Func("actor", "PID.unstash")
 		uf := c.NewFlow(us)
 		c.Check(len(uf.Find(uf.CallOnField(box, "Dequeue"))) == 1 && len(uf.Find(uf.CallTo(doReceive.Obj))) == 1 && len(uf.loopBackEdges()) == 0, "unstash/exactly-one", "unstash moves exactly the oldest stashed message", c.P.Pos(us.Decl.Pos()), "")
